@@ -24,6 +24,7 @@ CONSTANTS
   MaxE = 2
   StrictOrder = TRUE
   LowerBound = TRUE
+  CacheCopies = TRUE
 INVARIANT TypeOK
 INVARIANT AcceptIffValid
 INVARIANT ReasonsIffInvalid
